@@ -151,6 +151,13 @@ MUTANTS = [
     ("load-lagrangian-section-becomes-elif", "sopht/utils/io.py", "            if self.lagrangian_grids:", "            elif self.lagrangian_grids:", ["C18"]),
     ("spread2d-skips-markers-inside-the-admissible-domain", IB + "EulerianLagrangianGridCommunicator2D.py", "        for i in range(num_lag_nodes):\n            eul_grid_field[\n                ...,",
      "        for i in range(num_lag_nodes):\n            if np.min(nearest_eul_grid_index_to_lag_grid[:, i]) < interp_kernel_width:\n                continue\n            eul_grid_field[\n                ...,", ["C07"]),
+    # seventh-round rules
+    ("factory3d-drops-cfl", "sopht/simulator/flow/flow_simulators_3d.py", "        cfl=cfl,\n", "", ["C16"]),
+    ("simulator2d-zero-zone-width-falls-back", NS, 'self.penalty_zone_width = kwargs.get("penalty_zone_width", 2)', 'self.penalty_zone_width = kwargs.get("penalty_zone_width") or 2', ["C19"]),
+    ("interaction-forcing-field-contiguous-copy", IBFI, "self.eul_grid_forcing_field = eul_grid_forcing_field.view()", "self.eul_grid_forcing_field = np.ascontiguousarray(eul_grid_forcing_field).view()", ["C08", "C07", "C10"]),
+    ("support2d-index-rounded", IB + "EulerianLagrangianGridCommunicator2D.py", "nearest_eul_grid_index_to_lag_grid[...] = (lag_positions - eul_grid_coord_shift) // dx", "nearest_eul_grid_index_to_lag_grid[...] = np.rint((lag_positions - eul_grid_coord_shift) / dx)", ["C07", "C06"]),
+    ("forcing-update-2d-skipped-on-zero-x-forcing", E2 + "update_vorticity_from_velocity_forcing_2d.py", "        _update_vorticity_from_velocity_forcing_pyst_kernel_2d(\n", "        if not velocity_forcing_field[x_axis_idx].any():\n            return\n        _update_vorticity_from_velocity_forcing_pyst_kernel_2d(\n", ["C05"]),
+    ("damping-coefficient-product-instead-of-power", IBFI, "virtual_boundary_damping_coeff *= max_lag_grid_dx ** (grid_dim - 1)", "virtual_boundary_damping_coeff *= max_lag_grid_dx * (grid_dim - 1)", ["C10"]),
 ]
 
 # behaviour-preserving edits: every listed check must stay silent
@@ -204,6 +211,8 @@ CONTROLS = [
     ("filter-work-buffer-through-a-view", NS, "                field_buffer=self.buffer_vector_field[1],", "                field_buffer=self.buffer_vector_field[1].view(),", ["C19"]),
     ("spread2d-skips-markers-whose-window-leaves-the-grid", IB + "EulerianLagrangianGridCommunicator2D.py", "        for i in range(num_lag_nodes):\n            eul_grid_field[\n                ...,",
      "        for i in range(num_lag_nodes):\n            if np.min(nearest_eul_grid_index_to_lag_grid[:, i]) < interp_kernel_width - 1:\n                continue\n            eul_grid_field[\n                ...,", ["C07", "C06"]),
+    ("forcing-update-2d-skipped-on-all-zero-forcing", E2 + "update_vorticity_from_velocity_forcing_2d.py", "        _update_vorticity_from_velocity_forcing_pyst_kernel_2d(\n", "        if not velocity_forcing_field.any():\n            return\n        _update_vorticity_from_velocity_forcing_pyst_kernel_2d(\n", ["C05", "C12", "C13"]),
+    ("simulator2d-zone-width-explicit-none-test", NS, 'self.penalty_zone_width = kwargs.get("penalty_zone_width", 2)', 'self.penalty_zone_width = kwargs["penalty_zone_width"] if "penalty_zone_width" in kwargs else 2', ["C19", "C01"]),
 ]
 
 
